@@ -85,13 +85,12 @@ class WindowedCoordinator:
 
         with ThreadPoolExecutor(max_workers=self._max_workers) as pool:
             while current_time < self._end_time:
-                window_end_s = current_time.to_seconds() + self._window_size
+                # Advance in integer nanoseconds: a round trip through float
+                # seconds can land one nanosecond short of end_time forever.
+                window_end = current_time + self._window_size
                 # Clamp to end_time
-                if self._end_time != Instant.Infinity:
-                    end_s = self._end_time.to_seconds()
-                    if window_end_s > end_s:
-                        window_end_s = end_s
-                window_end = Instant.from_seconds(window_end_s)
+                if window_end > self._end_time:
+                    window_end = self._end_time
 
                 # 1. EXECUTE (parallel)
                 futures = {}
